@@ -27,15 +27,17 @@ int main(void) {
 		}
 	} else token_pool = 0;
 	token_pool_count = c;
-	int op = OP;
-	if (op == 0) {                        /* init */
+#if OP == 0
+	{                        /* init */
 		token_pool_init();
 		COVER(IN.have_pool); COVER(!IN.have_pool);
 		CHECK(token_pool != 0, "init: a pool exists afterwards");
 		CHECK(token_pool_count == c + 1, "init: use counter incremented");
 		if (IN.have_pool) { CHECK(token_pool->allocated->size == nslabs, "init on an existing pool touches no slab"); if (slab) slab[0] = 1; if (slab0) slab0[0] = 1; }
 		else CHECK(token_pool->allocated->size == 1 && token_pool->next != 0 && (char *) token_pool->last == (char *) token_pool->next + sizeof(token) * NOBJ, "init creates a fresh pool with one empty slab");
-	} else if (op == 1) {                 /* token_new inside a bracket */
+	}
+#elif OP == 1
+	{                 /* token_new inside a bracket */
 		ASSUME(c > 0);
 		token *t = token_new(3, 1, 2);
 		CHECK(t != 0, "token_new returns a token");
@@ -47,19 +49,24 @@ int main(void) {
 		if (!slab) CHECK((char *) t == (char *) stack_peek(token_pool->allocated) && token_pool->allocated->size == 1, "a drained pool gets a new slab");
 		CHECK((char *) token_pool->next == (char *) t + sizeof(token), "bump pointer advanced by one object");
 		COVER(slab != 0 && IN.k == NOBJ); COVER(slab == 0); COVER(slab != 0 && IN.k == NOBJ - 1);
-	} else if (op == 2) {                 /* drain */
+	}
+#elif OP == 2
+	{                 /* drain */
 		ASSUME(c > 0);
 		token_pool_drain();
 		CHECK(token_pool_count == c - 1, "drain: use counter decremented");
 		if (c > 1) { CHECK(token_pool->allocated->size == nslabs, "inner drain releases nothing"); if (slab) slab[1] = 1; if (slab0) slab0[1] = 1; }
 		else { CHECK(token_pool->allocated->size == 0, "outermost drain releases every slab"); CHECK(token_pool->next == 0 && token_pool->last == 0, "outermost drain leaves a clean pool"); }
 		COVER(c == 1 && nslabs == 2); COVER(c > 1 && nslabs == 2);
-	} else if (op == 3) {                 /* free */
+	}
+#elif OP == 3
+	{                 /* free */
 		ASSUME(c == 0);
 		token_pool_free();
 		CHECK(token_pool == 0, "free: no pool afterwards (a later init starts clean)");
 		COVER(IN.have_pool && !IN.drained); COVER(!IN.have_pool);
-	} else ASSUME(0);
+	}
+#endif
 	/* PROTOINV re-established */
 	CHECK(token_pool_count == 0 || token_pool != 0, "PROTOINV: outstanding inits imply a pool");
 	if (token_pool) {
